@@ -10,7 +10,12 @@
  *   - after every consumer has written its marker over its whole copy, consumer j still finds a uniform marker
  *     that is its own or that of a consumer which legitimately shares the copy (same rank, same expected content,
  *     same conversion status); the producer's tile is unchanged unless a local consumer without conversion
- *     (documented to receive the producer's copy itself) wrote into it.
+ *     (documented to receive the producer's copy itself) wrote into it;
+ *   - write-back edge j (P's flow -> descW(j-1), CHANGELOG.ptg.md "Writing to matrix": Pack A <type or A.type>, Unpack
+ *     <type_data or desc.type> on desc): the elements of descW(j-1) selected by the unpack type hold the producer's values in
+ *     pack order, every other element keeps its initial pattern.  The write-back is executed asynchronously by the communication
+ *     thread from the producer's copy: when a local consumer without conversion shares that copy (and legitimately writes its
+ *     marker into it) a selected element may hold that marker instead - the program itself has this write-after-read race.
  */
 #include "parsec.h"
 #include "parsec/parsec_internal.h"
@@ -27,11 +32,14 @@
 #define MAXC 3
 #define MAXE 16
 #define PAT ((int)0xA5A5A5A5)
+#define WPAT ((int)0x5C5C5C5C)          /* initial content of the write-back collection descW */
+static inline int is_wb(char k) { return k == 'w' || k == 'v' || k == 't' || k == 'u'; }    /* write-back edge: no consumer tasks */
+static inline int is_coll(char k) { return k == 'd' || k == 'e'; }
 enum { T_F = 0, T_L = 1, T_U = 2 };
 static const char TYN[] = "FLU";
 
 static parsec_context_t *parsec;
-static int world = 1, myrank = 0, short_on = 1, max_viol = 3;
+static int world = 1, myrank = 0, short_on = 1, max_viol = 3, dry_run = 0;
 
 /* ---------------- arena-datatypes for one tile size ---------------- */
 static int cur_m = 0;
@@ -84,7 +92,7 @@ static int slot_of(const char *base, int j) /* "TO", 1 -> SLOT_TO1 */
 }
 static void case_str(char *b, size_t cap, const case_t *c)
 {
-    size_t o = snprintf(b, cap, "np=%d short=%d s=%s m=%d place=", world, short_on, c->st->kinds, c->m);
+    size_t o = snprintf(b, cap, "np=%d short=%d s=%s m=%d place=", world, short_on, c->st->key, c->m);
     for (int j = 0; j < c->st->nc; j++) o += snprintf(b + o, cap - o, "%s%d", j ? "," : "", c->place[j]);
     o += snprintf(b + o, cap - o, " bind=");
     int first = 1;
@@ -96,7 +104,7 @@ static int case_parse(const char *s, case_t *c, int *np, int *sh)
     char kinds[16], pl[32], bd[256];
     memset(c, 0, sizeof(*c)); for (int k = 0; k < SLOT_COUNT; k++) c->bind[k] = -1;
     if (6 != sscanf(s, "np=%d short=%d s=%15s m=%d place=%31s bind=%255s", np, sh, kinds, &c->m, pl, bd)) return -1;
-    for (const c18_struct_t *t = c18_structs; t->name; t++) if (!strcmp(t->kinds, kinds)) c->st = t;
+    for (const c18_struct_t *t = c18_structs; t->name; t++) if (!strcmp(t->key, kinds)) c->st = t;
     if (!c->st) return -1;
     int j = 0; for (char *tok = strtok(pl, ","); tok && j < MAXC; tok = strtok(NULL, ",")) c->place[j++] = atoi(tok);
     if (strcmp(bd, "-")) for (char *tok = strtok(bd, ","); tok; tok = strtok(NULL, ",")) {
@@ -117,10 +125,11 @@ static int positions(int ty, int m, int *pos) /* elements selected by a type, in
     return n;
 }
 typedef struct { int conv; int S, D; int exp[MAXE]; } model_t;
+static int to_slot(const case_t *c, int j) { int t = c->st->to[j - 1] - '0'; return t > 0 ? slot_of("TO", t) : -1; }   /* the naming may share it with an earlier edge */
 static void model_of(const case_t *c, int j /*1-based*/, model_t *mo)
 {
     char k = c->st->kinds[j - 1]; int local = (c->place[j - 1] == 0), m = c->m;
-    int TO = slot_of("TO", j), TI = slot_of("TI", j), RO = slot_of("RO", j), RI = slot_of("RI", j), TD = slot_of("TD", j);
+    int TO = to_slot(c, j), TI = slot_of("TI", j), RO = slot_of("RO", j), RI = slot_of("RI", j), TD = slot_of("TD", j);
     mo->conv = 1; mo->S = mo->D = T_F;
     if (local) {
         switch (k) {
@@ -130,6 +139,10 @@ static void model_of(const case_t *c, int j /*1-based*/, model_t *mo)
         case 'i': mo->S = T_F; mo->D = c->bind[TI]; break;                       /* Pack A.dtt, Unpack t2 */
         case 'd': mo->S = mo->D = c->bind[TD]; break;                            /* Pack type_data, Unpack type_data */
         case 'e': mo->S = c->bind[TD]; mo->D = c->bind[TI]; break;               /* Pack type_data, Unpack type */
+        case 'w': mo->S = c->bind[TO]; mo->D = c->bind[TD]; break;               /* write-back (1): Pack A type,   Unpack type_data */
+        case 'u': mo->S = T_F; mo->D = c->bind[TD]; break;                       /* write-back (2): Pack A A.type, Unpack type_data */
+        case 't': mo->S = c->bind[TO]; mo->D = T_F; break;                       /* write-back (3): Pack A type,   Unpack desc.type */
+        case 'v': mo->S = mo->D = T_F; break;                                    /* write-back (4): Pack A A.type, Unpack desc.type */
         }
     } else {
         switch (k) {
@@ -138,7 +151,7 @@ static void model_of(const case_t *c, int j /*1-based*/, model_t *mo)
         default: mo->S = mo->D = T_F; break;                                     /* copy's type -> DEFAULT arena type */
         }
     }
-    for (int e = 0; e < m * m; e++) mo->exp[e] = mo->conv ? PAT : PROD(e % m, e / m);
+    for (int e = 0; e < m * m; e++) mo->exp[e] = is_wb(k) ? WPAT : mo->conv ? PAT : PROD(e % m, e / m);
     if (mo->conv) {
         int ps[MAXE], pd[MAXE]; int ns = positions(mo->S, m, ps), nd = positions(mo->D, m, pd);
         for (int q = 0; q < ns && q < nd; q++) mo->exp[pd[q]] = PROD(ps[q] % m, ps[q] / m);
@@ -146,19 +159,20 @@ static void model_of(const case_t *c, int j /*1-based*/, model_t *mo)
 }
 static int same_class(const case_t *c, const model_t *a, int ja, const model_t *b, int jb)
 {
+    if (is_wb(c->st->kinds[ja - 1]) || is_wb(c->st->kinds[jb - 1])) return 0;
     return c->place[ja - 1] == c->place[jb - 1] && a->conv == b->conv && !memcmp(a->exp, b->exp, sizeof(int) * c->m * c->m);
 }
 
 /* ---------------- statistics ---------------- */
 typedef struct {
-    long cases, nontrivial, elems, conv_local, conv_remote, noconv, shared_pairs, tile_written;
+    long cases, nontrivial, elems, conv_local, conv_remote, noconv, shared_pairs, tile_written, wb, wb_conv, wb_racy, wb_marker;
     sx_set_t outcomes; char samples[3][512]; int nsamples; int violations, exhaustive;
 } stat_t;
 
 static void fmt_tile(char *b, size_t cap, const int *v, int n)
 {
     size_t o = 0; b[0] = 0;
-    for (int e = 0; e < n && o + 16 < cap; e++) { if (v[e] == PAT) o += snprintf(b + o, cap - o, "%s..", e ? " " : ""); else o += snprintf(b + o, cap - o, "%s%d", e ? " " : "", v[e]); }
+    for (int e = 0; e < n && o + 16 < cap; e++) { if (v[e] == PAT) o += snprintf(b + o, cap - o, "%s..", e ? " " : ""); else if (v[e] == WPAT) o += snprintf(b + o, cap - o, "%s__", e ? " " : ""); else o += snprintf(b + o, cap - o, "%s%d", e ? " " : "", v[e]); }
 }
 
 /* ---------------- watchdog / crash ---------------- */
@@ -217,13 +231,16 @@ static int run_case(const case_t *c, stat_t *st, char *msg, size_t mcap, int ver
     for (int j = 0; j < nc; j++) ownr[j] = (uint32_t)c->place[j];
     vdc_t *A = vdc_new(1, sizeof(int) * m * m, world, myrank, own0);
     vdc_t *R = vdc_new(nc, sizeof(int) * m * m, world, myrank, ownr);
-    A->super.default_dtt = coll_dtt; R->super.default_dtt = coll_dtt;
+    uint32_t ownw[MAXC] = { 0, 0, 0 };                                   /* write-back targets live on the producer's rank */
+    vdc_t *W = vdc_new(nc, sizeof(int) * m * m, world, myrank, ownw);
+    A->super.default_dtt = coll_dtt; R->super.default_dtt = coll_dtt; W->super.default_dtt = coll_dtt;
     int *tile = (int *)vdc_elem(A, 0);
     for (int e = 0; e < m * m; e++) tile[e] = PROD(e % m, e / m);
+    for (int e = 0; e < nc * m * m; e++) ((int *)vdc_elem(W, 0))[e] = WPAT;
     memset(snap, 0, sizeof(snap)); memset(seen, 0, sizeof(seen)); memset(snap_ptr, 0, sizeof(snap_ptr)); prod_seen = 0; prod_ptr = NULL;
     parsec_arena_datatype_t *slots[SLOT_COUNT];
     for (int s = 0; s < SLOT_COUNT; s++) slots[s] = &adt[c->bind[s] >= 0 ? c->bind[s] : T_F];
-    parsec_taskpool_t *tp = c->st->mk(&A->super, &R->super, &adt_default, slots);
+    parsec_taskpool_t *tp = c->st->mk(&A->super, &R->super, &W->super, &adt_default, slots);
     alarm(600);
     parsec_context_add_taskpool(parsec, tp);
     parsec_context_start(parsec);
@@ -234,7 +251,7 @@ static int run_case(const case_t *c, stat_t *st, char *msg, size_t mcap, int ver
     for (int j = 1; j <= nc; j++) model_of(c, j, &mo[j]);
     uint64_t h = 1469598103934665603ULL;
     for (int j = 1; j <= nc && !bad; j++) {
-        if (c->place[j - 1] != myrank) continue;
+        if (c->place[j - 1] != myrank || is_wb(c->st->kinds[j - 1])) continue;
         char a[200], b[200];
         if (seen[0][j] != 1 || seen[1][j] != 1 || seen[2][j] != 1) { snprintf(msg, mcap, "rank %d: consumer %d: tasks C/W/D ran %d/%d/%d times", myrank, j, seen[0][j], seen[1][j], seen[2][j]); bad = 1; break; }
         for (int e = 0; e < m * m; e++) { h = (h ^ (uint64_t)(uint32_t)snap[0][j][e]) * 1099511628211ULL; h = (h ^ (uint64_t)(uint32_t)snap[1][j][e]) * 1099511628211ULL; }
@@ -250,7 +267,7 @@ static int run_case(const case_t *c, stat_t *st, char *msg, size_t mcap, int ver
         /* after all writes: uniform marker of a member of j's sharing class */
         int mk = snap[1][j][0], uni = 1, okmk = 0;
         for (int e = 1; e < m * m; e++) if (snap[1][j][e] != mk) uni = 0;
-        for (int i = 1; i <= nc; i++) if (mk == 9000 + i && same_class(c, &mo[j], j, &mo[i], i)) okmk = 1;
+        for (int i = 1; i <= nc; i++) if (mk == 9000 + i && !is_wb(c->st->kinds[i - 1]) && same_class(c, &mo[j], j, &mo[i], i)) okmk = 1;
         if (verbose) { fmt_tile(a, sizeof(a), snap[1][j], m * m); printf("    rank %d consumer %d after all writes: [%s]\n", myrank, j, a); }
         if (!uni || !okmk) {
             fmt_tile(a, sizeof(a), snap[1][j], m * m);
@@ -264,7 +281,7 @@ static int run_case(const case_t *c, stat_t *st, char *msg, size_t mcap, int ver
         /* the producer's tile: original, or uniformly the marker of a local consumer without conversion */
         int orig = 1, mk = tile[0], uni = 1, okmk = 0; char a[200];
         for (int e = 0; e < m * m; e++) { if (tile[e] != PROD(e % m, e / m)) orig = 0; if (tile[e] != mk) uni = 0; h = (h ^ (uint64_t)(uint32_t)tile[e]) * 1099511628211ULL; }
-        for (int i = 1; i <= nc; i++) if (mk == 9000 + i && c->place[i - 1] == 0 && !mo[i].conv) okmk = 1;
+        for (int i = 1; i <= nc; i++) if (mk == 9000 + i && !is_wb(c->st->kinds[i - 1]) && c->place[i - 1] == 0 && !mo[i].conv) okmk = 1;
         elems += m * m;
         if (verbose) { fmt_tile(a, sizeof(a), tile, m * m); printf("    producer's tile after the run: [%s]\n", a); }
         if (!orig && !(uni && okmk)) {
@@ -273,6 +290,29 @@ static int run_case(const case_t *c, stat_t *st, char *msg, size_t mcap, int ver
             bad = 1;
         }
         if (!orig && st) st->tile_written++;
+    }
+    int racy = 0;                        /* a local consumer without conversion owns (and overwrites) the producer's copy the write-back reads */
+    for (int i = 1; i <= nc; i++) if (!is_wb(c->st->kinds[i - 1]) && c->place[i - 1] == 0 && !mo[i].conv) racy = 1;
+    for (int j = 1; j <= nc && myrank == 0 && !bad; j++) {
+        if (!is_wb(c->st->kinds[j - 1])) continue;
+        const int *wt = (const int *)vdc_elem(W, j - 1); char a[200], b[200]; int ok = 1, mseen = 0;
+        for (int e = 0; e < m * m; e++) {
+            int good = (wt[e] == mo[j].exp[e]);
+            if (!good && racy && mo[j].exp[e] != WPAT)
+                for (int i = 1; i <= nc; i++) if (wt[e] == 9000 + i && !is_wb(c->st->kinds[i - 1]) && c->place[i - 1] == 0 && !mo[i].conv) good = mseen = 1;
+            if (!good) ok = 0;
+            h = (h ^ (uint64_t)(uint32_t)(racy ? mo[j].exp[e] : wt[e])) * 1099511628211ULL;      /* the race is not part of the outcome */
+        }
+        elems += m * m;
+        if (mseen && st) st->wb_marker++;
+        if (verbose) { fmt_tile(a, sizeof(a), wt, m * m); fmt_tile(b, sizeof(b), mo[j].exp, m * m); printf("    write-back edge %d (kind %c, pack %c unpack %c%s): descW(%d) = [%s] expected [%s]\n", j, c->st->kinds[j - 1],
+                           TYN[mo[j].S], TYN[mo[j].D], racy ? ", races with a consumer sharing the producer's copy" : "", j - 1, a, b); }
+        if (!ok) {
+            fmt_tile(a, sizeof(a), wt, m * m); fmt_tile(b, sizeof(b), mo[j].exp, m * m);
+            snprintf(msg, mcap, "write-back edge %d (kind %c, pack %c unpack %c): descW(%d) holds [%s], expected [%s] (column-major, '__' = initial pattern of descW%s)", j, c->st->kinds[j - 1],
+                     TYN[mo[j].S], TYN[mo[j].D], j - 1, a, b, racy ? "; selected elements may also hold the marker of the local consumer that shares the producer's copy" : "");
+            bad = 1;
+        }
     }
     if (world > 1) {
         int who = bad ? myrank : world, first;
@@ -286,11 +326,14 @@ static int run_case(const case_t *c, stat_t *st, char *msg, size_t mcap, int ver
     if (st) {
         st->cases++; st->elems += elems;
         int ntriv = 0;
-        for (int j = 1; j <= nc; j++) { if (!mo[j].conv) st->noconv++; else if (c->place[j - 1]) st->conv_remote++; else st->conv_local++; if (mo[j].conv) ntriv = 1; }
+        for (int j = 1; j <= nc; j++) {
+            if (is_wb(c->st->kinds[j - 1])) { st->wb++; if (mo[j].S != T_F || mo[j].D != T_F) { st->wb_conv++; ntriv = 1; } if (racy) st->wb_racy++; continue; }
+            if (!mo[j].conv) st->noconv++; else if (c->place[j - 1]) st->conv_remote++; else st->conv_local++; if (mo[j].conv) ntriv = 1;
+        }
         st->nontrivial += ntriv;
         sx_h128_t hh = { h, h * 0x9E3779B97F4A7C15ULL + 1 }; sx_set_add(&st->outcomes, hh);
     }
-    vdc_free(R); vdc_free(A);
+    vdc_free(W); vdc_free(R); vdc_free(A);
     return bad;
 }
 
@@ -331,6 +374,7 @@ static void do_case(enum_t *en)
     char cs[512], msg[SX_ERRLEN];
     if (en->stop) return;
     if (unsupported_short(&en->c)) return;
+    if (dry_run) { en->st->cases++; return; }                 /* --dry: size of the box only */
     if (deadline_cut()) { en->st->exhaustive = 0; en->stop = 1; return; }
     cur_case = &en->c; cur_tag = en->tag;
     int bad = run_case(&en->c, en->st, msg, sizeof(msg), 0);
@@ -346,7 +390,9 @@ static void do_case(enum_t *en)
         if (st->violations >= max_viol) en->stop = 1;
     }
 }
-/* bind the slots of consumer j (1-based) and recurse */
+/* types an unpack/input type may take for a given pack/output type: equal packed size only (F:{F}, L:{L,U}, U:{U,L}) */
+static const int COMPAT[3][2] = { { T_F, -1 }, { T_L, T_U }, { T_U, T_L } };
+/* bind the remaining slots of edge j (1-based) given the bound local output type slots, and recurse */
 static void bind_rec(enum_t *en, int j)
 {
     case_t *c = &en->c; int nc = c->st->nc;
@@ -361,20 +407,36 @@ static void bind_rec(enum_t *en, int j)
         return;
     }
     char k = c->st->kinds[j - 1]; int local = (c->place[j - 1] == 0);
-    int TO = slot_of("TO", j), TI = slot_of("TI", j), RO = slot_of("RO", j), RI = slot_of("RI", j), TD = slot_of("TD", j);
+    int TO = to_slot(c, j), TI = slot_of("TI", j), RO = slot_of("RO", j), RI = slot_of("RI", j), TD = slot_of("TD", j);
+    int to = TO >= 0 ? c->bind[TO] : -1;
     switch (k) {
-    case 'n': case 's': bind_rec(en, j + 1); break;
-    case 'o': for (int t = 0; t < 3; t++) { c->bind[TO] = t; bind_rec(en, j + 1); } c->bind[TO] = -1; break;
-    case 'b': for (int p = 0; p < 5; p++) { c->bind[TO] = PAIRS[p][0]; c->bind[TI] = PAIRS[p][1]; bind_rec(en, j + 1); } c->bind[TO] = c->bind[TI] = -1; break;
+    case 'n': case 's': case 'o': case 'v': case 't': bind_rec(en, j + 1); break;
+    case 'b': for (int q = 0; q < 2; q++) if (COMPAT[to][q] >= 0) { c->bind[TI] = COMPAT[to][q]; bind_rec(en, j + 1); } c->bind[TI] = -1; break;
     case 'i': c->bind[TI] = T_F; bind_rec(en, j + 1); c->bind[TI] = -1; break;
     case 'r': for (int p = 0; p < (local ? 1 : 5); p++) { c->bind[RO] = PAIRS[local ? 1 : p][0]; c->bind[RI] = PAIRS[local ? 1 : p][1]; bind_rec(en, j + 1); } c->bind[RO] = c->bind[RI] = -1; break;
     case 'x':
-        if (local) { c->bind[RO] = c->bind[RI] = T_L; for (int p = 0; p < 5; p++) { c->bind[TO] = PAIRS[p][0]; c->bind[TI] = PAIRS[p][1]; bind_rec(en, j + 1); } }
-        else for (int t = 0; t < 3; t++) { c->bind[TO] = c->bind[TI] = t; for (int p = 0; p < 5; p++) { c->bind[RO] = PAIRS[p][0]; c->bind[RI] = PAIRS[p][1]; bind_rec(en, j + 1); } }
-        c->bind[TO] = c->bind[TI] = c->bind[RO] = c->bind[RI] = -1; break;
+        if (local) { c->bind[RO] = c->bind[RI] = T_L; for (int q = 0; q < 2; q++) if (COMPAT[to][q] >= 0) { c->bind[TI] = COMPAT[to][q]; bind_rec(en, j + 1); } }
+        else { c->bind[TI] = to; for (int p = 0; p < 5; p++) { c->bind[RO] = PAIRS[p][0]; c->bind[RI] = PAIRS[p][1]; bind_rec(en, j + 1); } }
+        c->bind[TI] = c->bind[RO] = c->bind[RI] = -1; break;
     case 'd': for (int t = 0; t < 3; t++) { c->bind[TD] = t; bind_rec(en, j + 1); } c->bind[TD] = -1; break;
     case 'e': for (int p = 0; p < 5; p++) { c->bind[TD] = PAIRS[p][0]; c->bind[TI] = PAIRS[p][1]; bind_rec(en, j + 1); } c->bind[TD] = c->bind[TI] = -1; break;
+    case 'w': for (int q = 0; q < 2; q++) if (COMPAT[to][q] >= 0) { c->bind[TD] = COMPAT[to][q]; bind_rec(en, j + 1); } c->bind[TD] = -1; break;
+    case 'u': c->bind[TD] = T_F; bind_rec(en, j + 1); c->bind[TD] = -1; break;      /* Pack A.type (full): equal packed size only */
     }
+}
+/* bind the local output type slots (one per block of the structure's naming: edges of one block use the same type NAME, hence
+ * always the same type), then the per-edge slots */
+static void bind_to(enum_t *en, int t /* slot index 1..3 */)
+{
+    case_t *c = &en->c; int nc = c->st->nc;
+    if (en->stop) return;
+    if (t > MAXC) { bind_rec(en, 1); return; }
+    int used = 0, only_full = 0;
+    for (int j = 1; j <= nc; j++) if (c->st->to[j - 1] - '0' == t) { used = 1; if (c->st->kinds[j - 1] == 't') only_full = 1; }   /* (3) unpacks with the full desc.type */
+    if (!used) { bind_to(en, t + 1); return; }
+    int S = slot_of("TO", t);
+    for (int ty = 0; ty < (only_full ? 1 : 3); ty++) { c->bind[S] = ty; bind_to(en, t + 1); }
+    c->bind[S] = -1;
 }
 static void place_rec(enum_t *en, int j)
 {
@@ -383,13 +445,12 @@ static void place_rec(enum_t *en, int j)
     if (j > nc) {
         int anyrem = 0; for (int i = 0; i < nc; i++) if (c->place[i]) anyrem = 1;
         if (en->b->skip_all_local && !anyrem) return;
-        bind_rec(en, 1); return;
+        bind_to(en, 1); return;
     }
     char k = c->st->kinds[j - 1];
     for (int r = 0; r < world; r++) {
-        if (r && (k == 'd' || k == 'e')) break;          /* direct reads of the collection must be local */
-        /* consumers of the same kind are interchangeable: enumerate non-decreasing placements among equal neighbours */
-        if (j > 1 && c->st->kinds[j - 2] == k && r < c->place[j - 2]) continue;
+        if (r && (is_coll(k) || is_wb(k))) break;        /* direct reads of the collection and write-backs must be local to the producer */
+        /* no symmetry reduction among consumers of the same kind: the declaration order of the deps is part of the program */
         c->place[j - 1] = r; place_rec(en, j + 1);
     }
 }
@@ -398,23 +459,30 @@ static void run_box(const box_t *b)
 {
     for (int nc = b->minc; nc <= b->maxc; nc++) {
         stat_t st; memset(&st, 0, sizeof(st)); st.exhaustive = 1;
-        char tag[64]; snprintf(tag, sizeof(tag), "np%d-short%d-%dconsumer%s", world, short_on, nc, nc > 1 ? "s" : "");
-        double t0 = sx_now(); long nstruct = 0, idx = 0; enum_t en; memset(&en, 0, sizeof(en)); en.b = b; en.st = &st; en.tag = tag;
-        for (const c18_struct_t *t = c18_structs; t->name && !en.stop; t++) {
-            if (t->nc != nc) continue;
-            if (b->only && strcmp(b->only, t->kinds)) continue;
-            if ((idx++ % b->nshards) != b->shard) continue;
-            nstruct++;
-            for (int m = b->minm; m <= b->maxm && !en.stop; m++) {
+        char tag[64]; snprintf(tag, sizeof(tag), "np%d-short%d-%dedge%s", world, short_on, nc, nc > 1 ? "s" : "");
+        double t0 = sx_now(); long nstruct = 0; enum_t en; memset(&en, 0, sizeof(en)); en.b = b; en.st = &st; en.tag = tag;
+        char mdone[32] = ""; int mfirst_cut = 0;
+        /* tile size outermost: a deadline cuts the box at a tile size (the sizes completed for ALL structures of the shard are reported) */
+        for (int m = b->minm; m <= b->maxm && !en.stop; m++) {
+            long idx = 0; nstruct = 0;
+            for (const c18_struct_t *t = c18_structs; t->name && !en.stop; t++) {
+                long before = st.cases;
+                if (t->nc != nc) continue;
+                if (b->only && strcmp(b->only, t->kinds) && strcmp(b->only, t->key)) continue;
+                if ((idx++ % b->nshards) != b->shard) continue;
+                nstruct++;
                 memset(&en.c, 0, sizeof(en.c)); en.c.st = t; en.c.m = m; for (int s = 0; s < SLOT_COUNT; s++) en.c.bind[s] = -1;
                 place_rec(&en, 1);
+                if (dry_run && myrank == 0) printf("dry: %s m=%d %s %ld\n", tag, m, t->key, st.cases - before);
             }
+            if (!en.stop) snprintf(mdone + strlen(mdone), sizeof(mdone) - strlen(mdone), "%s%d", mdone[0] ? "," : "", m); else if (!mfirst_cut) mfirst_cut = m;
         }
         if (myrank == 0 && (nstruct || !b->only)) {
-            char extra[700]; const char *sp[3] = { st.samples[0], st.samples[1], st.samples[2] };
+            char extra[1000]; const char *sp[3] = { st.samples[0], st.samples[1], st.samples[2] };
             snprintf(extra, sizeof(extra), "\"structures\":%ld,\"consumers_with_local_conversion\":%ld,\"consumers_with_remote_conversion\":%ld,\"consumers_without_conversion\":%ld,"
-                     "\"copies_found_shared_within_class\":%ld,\"runs_where_producer_tile_was_legitimately_written\":%ld,\"elements_checked\":%ld,\"ranks\":%d,\"short_messages\":%d,\"shard\":\"%d/%d\"",
-                     nstruct, st.conv_local, st.conv_remote, st.noconv, st.shared_pairs, st.tile_written, st.elems, world, short_on, b->shard, b->nshards);
+                     "\"copies_found_shared_within_class\":%ld,\"runs_where_producer_tile_was_legitimately_written\":%ld,\"writebacks_checked\":%ld,\"writebacks_with_conversion\":%ld,"
+                     "\"writebacks_racing_with_a_consumer_sharing_the_producer_copy\":%ld,\"of_which_observed_holding_that_consumers_marker\":%ld,\"elements_checked\":%ld,\"ranks\":%d,\"short_messages\":%d,\"shard\":\"%d/%d\",\"tile_sizes_completed\":\"%s\",\"tile_size_cut\":%d",
+                     nstruct, st.conv_local, st.conv_remote, st.noconv, st.shared_pairs, st.tile_written, st.wb, st.wb_conv, st.wb_racy, st.wb_marker, st.elems, world, short_on, b->shard, b->nshards, mdone, mfirst_cut);
             sx_report(tag, st.cases, st.elems, st.cases, st.nontrivial, (long)st.outcomes.n, st.exhaustive, st.violations, sx_now() - t0, extra, sp, st.nsamples);
         }
         free(st.outcomes.v);
@@ -436,6 +504,7 @@ int main(int argc, char **argv)
         else if (!strcmp(argv[i], "--skip-all-local")) b.skip_all_local = 1;
         else if (!strcmp(argv[i], "--maxviol") && i + 1 < argc) max_viol = atoi(argv[++i]);
         else if (!strcmp(argv[i], "--only") && i + 1 < argc) b.only = argv[++i];
+        else if (!strcmp(argv[i], "--dry")) dry_run = 1;
         else if (!strcmp(argv[i], "--shard") && i + 1 < argc) sscanf(argv[++i], "%d/%d", &b.shard, &b.nshards);
     }
     if (myrank != 0) for (int i = 1; i < argc; i++) if (!strcmp(argv[i], "--json") && i + 1 < argc) argv[i + 1] = (char *)"/dev/null";
